@@ -12,11 +12,13 @@ import (
 	"fmt"
 	"go/build"
 	"io"
+	"log"
 	"os"
 	"sort"
 	"strings"
 	"sync"
 	"syscall"
+	"time"
 
 	"golang.org/x/tools/go/loader"
 )
@@ -265,6 +267,8 @@ var errnos = map[string]syscall.Errno{"EIO": syscall.EIO, "EACCES": syscall.EACC
 
 // nextOp assigns the index of a mutating operation and returns the fault
 // planned for it, if any. Crashes are executed here.
+var stalled = map[string]bool{}
+
 func nextOp(kind, path string, n int) *Fault {
 	mu.Lock()
 	i := opIdx
@@ -273,6 +277,25 @@ func nextOp(kind, path string, n int) *Fault {
 	tracef("op %d %s %s %d", i, kind, path, n)
 	for k := range plan.Faults {
 		f := &plan.Faults[k]
+		if f.Kind == "stall" {
+			// a slow disk: the calling goroutine is held for K milliseconds inside the operation, which then
+			// proceeds normally. Op < 0: every write to a file other than derived.gen.go (the user's sources).
+			hit := f.Op == i
+			if f.Op < 0 && kind == "write" && !strings.HasSuffix(path, "derived.gen.go") {
+				// once per file (its first write): a printer writes a file in many small pieces
+				mu.Lock()
+				if !stalled[path] {
+					stalled[path] = true
+					hit = true
+				}
+				mu.Unlock()
+			}
+			if hit {
+				tracef("fault stall op %d %dms", i, f.K)
+				time.Sleep(time.Duration(f.K) * time.Millisecond)
+			}
+			continue
+		}
 		if f.Op != i {
 			continue
 		}
@@ -389,11 +412,11 @@ func (f *File) WriteAt(b []byte, off int64) (int, error) {
 	return f.f.WriteAt(b, off)
 }
 
-func (f *File) Read(b []byte) (int, error)              { return f.f.Read(b) }
-func (f *File) ReadAt(b []byte, off int64) (int, error) { return f.f.ReadAt(b, off) }
+func (f *File) Read(b []byte) (int, error)                { return f.f.Read(b) }
+func (f *File) ReadAt(b []byte, off int64) (int, error)   { return f.f.ReadAt(b, off) }
 func (f *File) Seek(off int64, whence int) (int64, error) { return f.f.Seek(off, whence) }
-func (f *File) Name() string                            { return f.f.Name() }
-func (f *File) Stat() (os.FileInfo, error)              { return f.f.Stat() }
+func (f *File) Name() string                              { return f.f.Name() }
+func (f *File) Stat() (os.FileInfo, error)                { return f.f.Stat() }
 
 func (f *File) Close() error {
 	if f.writable {
@@ -512,4 +535,49 @@ func CreateTemp(dir, pattern string) (*File, error) {
 		return nil, err
 	}
 	return wrap(of, nil, of.Name(), true)
+}
+
+// ---- process exit -------------------------------------------------------------
+
+// exitDelay holds the process for the planned time before it ends (fault kind
+// "exit-delay"): a process does not vanish the instant its main goroutine
+// decides to exit, and work that was started in the background and is not
+// waited for gets to run in that window. Together with "stall" (a slow write)
+// this makes "exits while a file is half written" a reproducible state.
+func exitDelay() {
+	for i := range plan.Faults {
+		if f := &plan.Faults[i]; f.Kind == "exit-delay" {
+			tracef("fault exit-delay %dms", f.K)
+			time.Sleep(time.Duration(f.K) * time.Millisecond)
+			return
+		}
+	}
+}
+
+// AtExit is deferred at the top of main (successful return).
+func AtExit() { exitDelay() }
+
+// Exit stands in for os.Exit.
+func Exit(code int) {
+	exitDelay()
+	if trace != nil {
+		trace.Sync()
+	}
+	os.Exit(code)
+}
+
+// Fatal, Fatalf, Fatalln stand in for the log package's functions of that name.
+func Fatal(v ...any) {
+	log.Output(2, fmt.Sprint(v...))
+	Exit(1)
+}
+
+func Fatalf(format string, v ...any) {
+	log.Output(2, fmt.Sprintf(format, v...))
+	Exit(1)
+}
+
+func Fatalln(v ...any) {
+	log.Output(2, fmt.Sprintln(v...))
+	Exit(1)
 }
